@@ -71,6 +71,9 @@ def run(res):
                                "impl": i[:2000], "expected": e[:2000], "tags": ["legal-file"]})
     for q, i, m in (kbad + hbad)[:2]:
         res.violations.append({"property": "C03", "what": "model reader and real reader disagree", "query": q[:100000], "impl": i[:2000], "model": m[:2000], "tags": ["reader-diff"]})
+    # 64-bit-word level: the real BitWords/BitReader against Words.v on operation scripts (own rng stream)
+    from props.words_corr import run_words_corr
+    run_words_corr(res, random.Random(res.seed + 17), thorough, parts=("reader",))
     # shipped assets
     al = assets.load()
     aq = ["rdec %s %s" % (dt, hx) for (_, dt, hx, _) in al]
